@@ -5,6 +5,7 @@ cd /verif
 for d in ${@:-seeded/C*}; do
   d=${d%/}
   [ -f $d/patch.diff ] || continue
+  git -C /repo apply --check /verif/$d/patch.diff 2>/dev/null || { echo "$(basename $d): does not apply to the current tree (obsolete, see meta.json)"; continue; }
   id=$(basename $d | cut -d- -f1)
   r=$(tools/seeded_run.sh /verif/$d/patch.diff $T $id 2>&1 | tail -1)
   echo "$(basename $d): $r"
